@@ -422,6 +422,116 @@ func Run(r *rt.Run) error {
 		x.run(kase{n: n, entries: f1, runs: runs[:2], pol: polTyped, family: "special-floats"})
 	}
 
+	// ---- Z: zero divisors of every numeric/duration type for / and % through EVERY API path: an error for the point, never a panic ----
+	zvals := []V{Int(0), Int(2), Int(-3), Flt(0), Flt(math.Copysign(0, -1)), Flt(2), Dur(0), Dur(time.Second), Dur(-3 * time.Second), Str("a"), Missing}
+	zz := scopes2("a", "b", zvals, zvals, true)
+	allModes := []byte{'E', 'T', 'I', 'F', 'S', 'B', 'D'}
+	var zruns [][]step
+	for _, m := range allModes { // the whole table through one API call each, on one compiled expression
+		zruns = append(zruns, seqRun(rnd.Perm(len(zz)), m))
+	}
+	zruns = append(zruns, seqRun(rnd.Perm(len(zz)), 0))
+	for _, n := range []*N{Bin("/", a, b), Bin("%", a, b), Bin("/", Lit(Int(7)), b), Bin("%", Lit(Int(7)), b), Bin("/", Lit(Dur(time.Second)), b), Bin("/", a, Lit(Int(0))),
+		Bin("%", a, Lit(Int(0))), Bin("/", a, Lit(Dur(0))), Bin("==", Bin("/", a, b), Lit(Int(1))), Bin("<", Bin("%", a, b), Lit(Int(1))), Bin(">", Bin("/", a, b), Lit(Dur(time.Second))),
+		Bin("AND", Bin(">", a, Lit(Int(0))), Bin("==", Bin("/", a, b), Lit(Int(1)))), Bin("+", Bin("/", a, b), Lit(Int(1))), Un("-", Bin("/", a, b)),
+		Call("float", Bin("/", a, b)), Call("string", Bin("%", a, b)), Call("if", Bin("==", Bin("%", a, b), Lit(Int(0))), Lit(Int(1)), Lit(Int(2))),
+		Call("duration", Bin("/", a, b), Lit(Dur(time.Second))), Lam(Bin("/", a, b)), Bin("/", cnt, b)} {
+		x.run(kase{n: n, entries: zz, runs: zruns, pol: polTyped, family: "zero-divisor"})
+	}
+	// the same through EvalPredicate (Type, then EvalBool) on points
+	var zpts []entry
+	zf := []V{Int(0), Int(2), Flt(0), Flt(2), Str("a")}
+	for i := 0; i <= len(zf); i++ {
+		for j := 0; j <= len(zf); j++ {
+			e := entry{point: true, fields: map[string]V{}, tags: map[string]string{}, tm: 61}
+			if i < len(zf) {
+				e.fields["a"] = zf[i]
+			}
+			if j < len(zf) {
+				e.fields["b"] = zf[j]
+			}
+			zpts = append(zpts, e)
+		}
+	}
+	for _, n := range []*N{Bin("==", Bin("/", a, b), Lit(Int(1))), Bin("<", Bin("%", a, b), Lit(Int(1))), Bin("==", Bin("/", a, Lit(Int(0))), Lit(Int(1))), Bin("/", a, b),
+		Bin("OR", Bin("==", Bin("%", a, b), Lit(Int(0))), Bin(">", a, Lit(Int(1)))), Bin(">", Bin("/", Lit(Dur(time.Second)), b), Lit(Dur(0))),
+		Bin("==", Bin("/", Lit(Dur(time.Second)), Bin("-", Lit(Dur(time.Second)), Lit(Dur(time.Second)))), Lit(Int(1))), Bin("==", Bin("/", cnt, b), Lit(Int(1)))} {
+		x.run(kase{n: n, entries: zpts, runs: [][]step{seqRun(rnd.Perm(len(zpts)), 'P'), seqRun(rnd.Perm(len(zpts)), 'P')}, family: "zero-divisor"})
+	}
+
+	// ---- U: non-ASCII strings: every string built-in works on BYTES (2-, 3-, 4-byte runes, a combining mark, invalid UTF-8) ----
+	ustr := []V{Str("caf\u00e9"), Str("\u00e9"), Str("\u20ac5"), Str("\U0001F600"), Str("e\u0301"), Str("\xff"), Str("a\xc3"), Str("\xa9"), Str("\u65e5\u672c"), Str("ab"), Str("a"), Str(""), Str("A\u00c9"), Int(1)}
+	u1 := scopes1("a", ustr)
+	u2 := scopes2("a", "b", ustr, ustr, false)
+	for _, n := range []*N{Call("strLength", a), Call("strSubstring", a, Lit(Int(0)), Call("strLength", a)), Bin("==", Call("strSubstring", a, Lit(Int(0)), Call("strLength", a)), a),
+		Call("strSubstring", a, Lit(Int(1)), Call("strLength", a)), Call("strSubstring", a, Lit(Int(0)), Lit(Int(4))), Call("strSubstring", a, Lit(Int(3)), Lit(Int(5))),
+		Call("strToUpper", a), Call("strToLower", a), Call("strTrimSpace", a), Call("string", a), Bin("+", a, Lit(Str("!"))), Bin("=~", a, Lit(Rex("a"))),
+		Call("strLength", Bin("+", a, a)), Call("strReplace", a, Lit(Str("")), Lit(Str("-")), Lit(Int(-1))), Call("regexReplace", Lit(Rex("a")), a, Lit(Str("_"))),
+		Call("regexReplace", Lit(Rex("^a")), a, Lit(Str(""))), Call("int", a), Call("float", a), Call("bool", a)} {
+		runs, _ := longRuns(rnd, len(u1))
+		x.run(kase{n: n, entries: u1, runs: runs, pol: polTyped, family: "unicode"})
+	}
+	for _, f := range []string{"strContains", "strHasPrefix", "strHasSuffix", "strIndex", "strLastIndex", "strTrimPrefix", "strTrimSuffix", "strCount", "strContainsAny",
+		"strIndexAny", "strLastIndexAny", "strTrim", "strTrimLeft", "strTrimRight"} {
+		runs, _ := longRuns(rnd, len(u2))
+		x.run(kase{n: Call(f, a, b), entries: u2, runs: runs[:2], pol: polTyped, family: "unicode"})
+	}
+	for _, op := range []string{"+", "==", "!=", "<", "<=", ">", ">="} {
+		runs, _ := longRuns(rnd, len(u2))
+		x.run(kase{n: Bin(op, a, b), entries: u2, runs: runs[:2], pol: polTyped, family: "unicode"})
+	}
+	for _, n := range []*N{Call("strReplace", a, b, Lit(Str("-")), Lit(Int(-1))), Call("strReplace", a, b, Lit(Str("")), Lit(Int(1))), Call("strReplace", a, Lit(Str("a")), b, Lit(Int(2))),
+		Call("strSubstring", a, Call("strIndex", a, b), Call("strLength", a)), Call("regexReplace", Lit(Rex("b$")), a, b)} {
+		runs, _ := longRuns(rnd, len(u2))
+		x.run(kase{n: n, entries: u2, runs: runs[:2], pol: polTyped, family: "unicode"})
+	}
+	for _, lit := range []string{"caf\u00e9", "\u20ac5", "\U0001F600", "e\u0301"} {
+		for _, n := range []*N{Call("strLength", Lit(Str(lit))), Call("strSubstring", Lit(Str(lit)), Lit(Int(0)), Call("strLength", Lit(Str(lit)))), Call("strIndex", Lit(Str(lit)), Lit(Str("5")))} {
+			x.run(kase{n: n, entries: []entry{scopeEntry()}, runs: [][]step{{{0, 'E', 0}, {0, 'T', 0}}, {{0, 0, 0}}}, pol: polTyped, family: "unicode"})
+		}
+	}
+	// ASCII coverage of the two functions that are new in the model
+	a3 := scopes3([]V{Str("abab"), Str("aaa"), Str(""), Str("b")}, []V{Str("a"), Str("ab"), Str(""), Str("x")}, []V{Int(-1), Int(0), Int(1), Int(2), Int(5)})
+	for _, n := range []*N{Call("strReplace", a, b, Lit(Str("-")), c), Call("strReplace", a, b, Lit(Str("")), c), Call("strReplace", a, b, b, c)} {
+		runs, _ := longRuns(rnd, len(a3))
+		x.run(kase{n: n, entries: a3, runs: runs[:2], pol: polTyped, family: "unicode"})
+	}
+	for _, rx := range []string{"a", "^a", "b$", "^$", "1"} {
+		runs, _ := longRuns(rnd, len(ss))
+		x.run(kase{n: Call("regexReplace", Lit(Rex(rx)), a, b), entries: ss, runs: runs[:2], pol: polTyped, family: "unicode"})
+	}
+	x.run(kase{n: Call("abs", a, a, a, a, a), entries: one, runs: [][]step{seqRun(rnd.Perm(len(one)), 'E'), seqRun(rnd.Perm(len(one)), 'T'), seqRun(rnd.Perm(len(one)), 'F')}, family: "builtin"})
+
+	// ---- G: int64 around +-2^53, +-2^62, MaxInt64, MinInt64 (v, v+-1, v+-2) as BOTH operands of every comparison and arithmetic operator ----
+	var bigs []V
+	for _, base := range []int64{1 << 53, -(1 << 53), 1 << 62, -(1 << 62)} {
+		for d := int64(-2); d <= 3; d++ {
+			bigs = append(bigs, Int(base+d))
+		}
+	}
+	for d := int64(0); d <= 3; d++ {
+		bigs = append(bigs, Int(math.MaxInt64-d), Int(math.MinInt64+d))
+	}
+	bigs = append(bigs, Int(0), Int(1), Int(-1), Int(2), Int(-3), Flt(1<<53), Flt(1<<53+2), Flt(1<<53-1), Flt(-(1 << 53)), Flt(1<<62), Flt(-(1 << 62)), Flt(math.Ldexp(1, 63)), Flt(-math.Ldexp(1, 63)),
+		Flt(1), Flt(0.5), Flt(math.NaN()), Flt(math.Inf(1)), Dur(time.Second))
+	bb2 := scopes2("a", "b", bigs, bigs, false)
+	for _, op := range []string{"==", "!=", "<", "<=", ">", ">=", "+", "-", "*", "/", "%"} {
+		runs, _ := longRuns(rnd, len(bb2))
+		x.run(kase{n: Bin(op, a, b), entries: bb2, runs: runs, pol: polTyped, family: "big-int"})
+	}
+	b1 := scopes1("a", bigs)
+	for _, n := range []*N{Call("float", a), Call("int", a), Call("int", Call("float", a)), Call("bool", a), Un("-", a), Bin("==", Call("float", a), a), Bin("<", a, Bin("+", a, Lit(Int(1)))),
+		Bin("==", a, Lit(Int(9007199254740993))), Bin("<", Lit(Int(math.MaxInt64-1)), a), Bin(">=", Lit(Flt(1<<53)), a), Call("strSubstring", Lit(Str("ab")), Lit(Int(0)), a),
+		Call("duration", a, Lit(Dur(time.Nanosecond))), Call("if", Bin(">", a, Lit(Int(0))), a, Lit(Int(0)))} {
+		runs, _ := longRuns(rnd, len(b1))
+		x.run(kase{n: n, entries: b1, runs: runs[:2], pol: polTyped, family: "big-int"})
+	}
+	for _, p := range [][2]int64{{9007199254740993, 9007199254740992}, {math.MaxInt64 - 1, math.MaxInt64}, {math.MinInt64, math.MinInt64 + 1}, {1<<62 + 1, 1 << 62}} {
+		for _, op := range []string{"==", "!=", "<", "<=", ">", ">=", "-"} {
+			x.run(kase{n: Bin(op, Lit(Int(p[0])), Lit(Int(p[1]))), entries: []entry{scopeEntry()}, runs: [][]step{{{0, 'E', 0}, {0, 'T', 0}}, {{0, 0, 0}}}, pol: polTyped, family: "big-int"})
+		}
+	}
+
 	// ---- O: evaluation order: left before right, right not evaluated after a failing left, for every operator x operand type pair ----
 	// firstFails is an int that fails (division by zero) when it is the FIRST call of count() on the expression and is 1 when it is the second
 	firstFails := Bin("/", Lit(Int(1)), Bin("-", cnt, Lit(Int(1))))
